@@ -86,26 +86,45 @@ def _num_el(kind):
 def sort_inputs(draw):
     kind = draw(st.sampled_from(["f8", "i8"]))
     container = draw(st.sampled_from(["list", "list", "array", "array", "memmap"]))
+    adtype = None
+    if kind == "i8" and container != "list":
+        # integer arrays come in other widths and signs too (values drawn inside the type's range)
+        adtype = draw(st.sampled_from([None, None, "u1", "i2", "u4", "u8", "i1"]))
     if draw(st.integers(0, 2)) < 2:
-        vals = draw(st.lists(_num_el(kind), min_size=0, max_size=draw(st.sampled_from([0, 1, 2, 3, 5, 12, 30]))))
+        if adtype:
+            ii = np.iinfo(adtype)
+            el = st.one_of(st.integers(int(ii.min), int(ii.max)), st.sampled_from([int(ii.min), int(ii.max), 0, 1]),
+                           st.integers(0, 3))
+        else:
+            el = _num_el(kind)
+        vals = draw(st.lists(el, min_size=0, max_size=draw(st.sampled_from([0, 1, 2, 3, 5, 12, 30]))))
         # JSON cannot carry inf: encode floats as hex strings
         data = [v.hex() for v in vals] if kind == "f8" else vals
-        return {"kind": kind, "container": container, "data": data}
+        return {"kind": kind, "container": container, "data": data, "adtype": adtype}
     pat = draw(st.sampled_from(PATTERNS))
     if pat == "random" and draw(st.integers(0, 3)) == 0:
         # long random inputs (recursion depth ~ log n there): sizes beyond a few typical cut-over points
         return {"kind": kind, "container": container,
                 "gen": {"seed": draw(st.integers(0, 2 ** 32)), "n": draw(st.sampled_from([513, 1001, 1025, 2049, 5000])),
-                        "pattern": pat, "kind": kind}}
+                        "pattern": pat, "kind": kind}, "adtype": adtype}
     nmax = 400 if pat in ("random", "few-distinct", "organ-pipe") else draw(st.sampled_from([60, 150, 400]))
-    return {"kind": kind, "container": container,
+    return {"kind": kind, "container": container, "adtype": adtype,
             "gen": {"seed": draw(st.integers(0, 2 ** 32)), "n": draw(st.integers(31, nmax)), "pattern": pat,
                     "kind": kind}}
 
 
 def _values(case):
     if "gen" in case:
-        return _expand(case["gen"])
+        v = _expand(case["gen"])
+        if case.get("adtype"):
+            ii = np.iinfo(case["adtype"])
+            span = int(ii.max) - int(ii.min) + 1
+            v = [int(x) % span + int(ii.min) for x in v]        # order-scrambling fold into the type's range
+            if case["gen"]["pattern"] in ("sorted", "sorted-with-ties"):
+                v = sorted(v)
+            elif case["gen"]["pattern"] == "reversed":
+                v = sorted(v, reverse=True)
+        return v
     if case["kind"] == "f8":
         return [float.fromhex(h) for h in case["data"]]
     return list(case["data"])
@@ -114,11 +133,11 @@ def _values(case):
 def _container(case, vals, ctx=None):
     if case["container"] == "memmap" and len(vals) and ctx is not None:
         # the use the module documents: sorting a memory-mapped array in place
-        mm = np.memmap(ctx.tmpfile("keys.dat"), dtype=case["kind"], mode="w+", shape=(len(vals),))
-        mm[:] = np.array(vals, dtype=case["kind"])
+        mm = np.memmap(ctx.tmpfile("keys.dat"), dtype=case.get("adtype") or case["kind"], mode="w+", shape=(len(vals),))
+        mm[:] = np.array(vals, dtype=case.get("adtype") or case["kind"])
         return mm
     if case["container"] in ("array", "memmap"):
-        return np.array(vals, dtype=case["kind"])
+        return np.array(vals, dtype=case.get("adtype") or case["kind"])
     return list(vals)
 
 
@@ -135,7 +154,7 @@ def check_sort(case, ctx):
     out = data.tolist() if isinstance(data, np.ndarray) else data
     require(len(out) == len(vals), "length changed from %d to %d", len(vals), len(out))
     if isinstance(data, np.ndarray):
-        require(data.dtype == np.dtype(case["kind"]), "dtype changed to %r", data.dtype)
+        require(data.dtype == np.dtype(case.get("adtype") or case["kind"]), "dtype changed to %r", data.dtype)
     bad = [i for i in range(len(out) - 1) if out[i] > out[i + 1]]
     require(not bad, "not non-decreasing at position %d: %r > %r (n=%d)", bad[0] if bad else -1,
             out[bad[0]] if bad else None, out[bad[0] + 1] if bad else None, len(out))
